@@ -19,6 +19,14 @@ CHECKS = {
          "Differential monitoring of the real path.ToStrings, path.CompletePath, the gnmi client's query -> SubscribeRequest conversion followed by wire marshal/unmarshal and server-side indexing, and value.FromScalar/ToScalar/Equal against small specifications: 10^5 (thorough 10^6) generated paths each evaluated 32 times and on deep clones, 2x10^5 (2x10^6) plain query paths, 22 Go scalar kinds, and ALL ordered pairs of a pool of 120 (600) TypedValues covering every oneof arm, no arm and nil (total, symmetric, sound). Held on everything explored except the known finding D18 (last query element ending in '/'), which is classified only when exactly that element is lost.",
          "Trusts model.IndexPath/IndexPrefix and the DESIGN definition of a plain element; proto marshal/unmarshal stands for the wire; Equal judged for totality, symmetry and soundness only; map-order independence explored by repetition.",
          "3/C19"),
+ "C02": ("reference-model differential monitor (virtual clock) over exhaustive small-scope plus seeded random notification histories on the real cache",
+         "Every notification of every explored history is executed on a real cache.Cache with a virtual clock (cache.Now) and on a model of the timestamp discipline; the class of the returned error and the whole content of every target (path, timestamp, stored message) are compared after every step. Exhaustive for all histories up to length 4 (5 thorough) over a 22-operation alphabet (2 paths x 3 timestamps x 2 values; exact, subtree and wildcard deletes; Reset) under 4 configurations and one operation shorter under 8 more (future threshold/clock, event-driven emulation, both path encodings); seeded random histories of 30/60 notifications beyond (keyed paths, atomic containers, multi-update notifications, re-adds, two targets, far-future stamps). Held = held on those executions.",
+         "Model is the specification: identical = proto.Equal on the stored message; latest = greatest timestamp of accepted non-metadata calls since the last Reset, advanced after the call; the future clause applies only to strictly newer updates to existing leaves; delete matching = model.MatchQ. Single goroutine; positive timestamps; prefix-free path sets.",
+         "3/C02"),
+ "C14": ("multi-target before/after differential with feed replay and stream trace monitor over seeded histories",
+         "Seeded histories of updates, deletes, lifecycle calls, Reset, Remove, Add over 2-4 targets with identical path sets run on the real cache with a real subscribe.Server attached to its feed. After every operation addressed to one target every other target's existence, leaves (wire bytes of stored notifications) and Metadata() values are compared with their state before it; Reset, Remove and re-Add post-conditions, the feed entries of each call, and the responses and final status of single-target and '*' STREAM subscribers are judged after every step. Held = held on those histories.",
+         "Single writer goroutine with a virtual clock; subscribers attach between operations and are synced before the history continues; end of stream decided by events only (probe entry through Server.Update; watchdog yields inconclusive); latestTimestamp, size and latency not asserted after Reset; trusted: model.Shadow/MatchQ replay and vlib.Stream.",
+         "3/C14"),
  "C04": ("trace monitor over in-memory Subscribe streams with schedule perturbation at verif points; replay-vs-cache oracle at logical quiescence",
          "Real cache + subscribe.Server driven by one writer goroutine per target (updates with unique values, leaf/subtree deletes, re-adds, Resets) while 2-6 STREAM subscriptions start at seeded moments under seeded delays / long holds at 7 schedule points and GOMAXPROCS 2/4/16. Every subscriber's exact response sequence is judged: exactly one sync (first for updates_only), every leaf present before the call and never deleted precedes the sync, values received were written and never go backwards, and replaying the responses equals the cache's matching content once a sentinel protocol establishes logical quiescence. Held = held on the interleavings produced; the evidence counts writes that landed in each registration/walk window.",
          "One writer per target; subscription path shapes chosen so that streaming compatibility and query selection coincide; schedules perturbed, not enumerated; a sentinel undelivered for 40 s on an idle system counts as a violation.",
